@@ -76,6 +76,14 @@ def run_property(pid, tier, seed, args):
                 col.ungenerated([pid], tgt, 'engine', 'engine error: %s: %s' % (type(e).__name__, e))
                 if args.verbose:
                     traceback.print_exc()
+    for lem in ctx.specs.lemmas:
+        if pid in lem.all_props:
+            try:
+                ctx.V.verify_lemma(lem)
+            except Exception as e:
+                col.ungenerated([pid], lem.target, 'engine', 'engine error: %s: %s' % (type(e).__name__, e))
+                if args.verbose:
+                    traceback.print_exc()
     # 2. other generators (SCAN, REL, LEMMA, site obligations ...)
     for g in extra_generators(pid):
         try:
